@@ -4,6 +4,7 @@ set -e
 cd "$(dirname "$0")/.."
 export CARGO_NET_OFFLINE=true
 python3 tools/extract_consts.py > /dev/null
+python3 tools/translate_logic.py > /dev/null
 (cd lean/MiniMoka && lake build 2>&1 | tail -3)
 (cd harness && cargo build --offline 2>&1 | tail -2)
 echo setup-ok
